@@ -94,6 +94,7 @@ def run(ctx):
                           case_replay(desc, fi, 1024, peaks, method, probs))
             break
     ctx.extra['oracle_frames'] = nS
+    ctx.run_modes()
     return ctx.finish(
         LEVEL,
         explanation='Theorems about the kernels (argmax = first maximum, clip radius, centre of mass, elevation = smallest slope, FFT product = '
